@@ -18,6 +18,7 @@ RULE = (
     "node: every output must equal its stable value. Non-trivial: c is cyclic and has >= 1 stable state. "
     "Distinct by digest."
 )
+RULE += ' Added after seeded-change rounds 4-5: two or three feedback loops in series with forward edges between them, in any storage order; suffix-related and escaped names (\\\\q next to q).'
 ASSUMPTIONS = ["reference semantics cgv.refsim (stable states = consistent valuations)", "circuits of <= 12 nodes"]
 EXHAUSTIVE_NOTE = "core: 2- and 3-gate rings over every mix of {buf, not, and, nor, xor} with one input, SR latches (nor / nand), a ring with an input that is also an output"
 EXAMPLES = {"quick": 1500, "thorough": 30000}
